@@ -97,6 +97,8 @@ type LocalCachedMap[G any, L any] struct {
 func (lm *LocalCachedMap[G, L]) GetOrCreate(tempKeys []string, onCreating func(permKeys []string)) L {
 	tempMergedKey := lm.keyBuffer
 	for _, tkey := range tempKeys {
+		// length prefix keeps the merged key injective: ('ab','c') and ('a','bc') must not share one entry
+		tempMergedKey = append(tempMergedKey, byte(len(tkey)>>24), byte(len(tkey)>>16), byte(len(tkey)>>8), byte(len(tkey)))
 		tempMergedKey = append(tempMergedKey, tkey...)
 	}
 	lm.keyBuffer = tempMergedKey[:0]
